@@ -66,6 +66,14 @@ CHECKS['C16'] = dict(cat='exploration', ref='4 C16',
    text='Monitor on literal round trips: random literals (arbitrary Unicode quoted atoms incl. quotes/newlines/control characters, integers, nested compounds, lists, list patterns, _) are rendered to source, compiled in fact/head/body position and queried; the observed term snapshot and to_python value are compared with the value computed from the generator AST, API-built twins (same and second engine) must unify in all four positions while a twin with one changed leaf must not, and every atom object reachable from an answer must be the interned object of its engine.',
    note='Trusted: the renderer as the inverse of the documented literal syntax; backslashes other than \\\' and lone surrogates are excluded by the property; compounds named "." with arity != 2 are outside the stated mapping.',
    tech='runtime differential monitor of literal round trips with positive and negative API-built twins')
+CHECKS['C18'] = dict(cat='exploration', ref='4 C18',
+   text='Process-differential monitor: batches of generated programs and all repository sample files are compiled in separate interpreter processes under PYTHONHASHSEED 0/1/2/3/random/4242, in forward, reversed and shuffled order, once and twice in a row, with four option objects; the SHA-256 of the returned bytes per (text, options) must agree across every process and every position in the compilation history.',
+   note='Trusted: byte equality. Debug text written to the options stream (contains object addresses) is not part of the returned value.',
+   tech='differential monitoring across processes, hash seeds and compilation histories')
+CHECKS['C19'] = dict(cat='exploration', ref='4 C19',
+   text='Black-box monitor on the command line of the working tree: subprocess runs over all 16 debug-flag combinations x stdout/-o x files/stdin x 1-3 sources for generated programs (incl. atoms with line breaks, non-ASCII and control characters) and the sample files; exit status, stdout, the -o file (pre-filled with junk) and stderr are compared with the library output (byte-identical without debug flags, identical modulo "#" lines with them, loadable Python) and corrupted sources must give a non-zero exit with file name and line:column.',
+   note='Trusted: compile_prolog_from_file as the reference for the CLI; comment lines = lines starting with "#"; LANG=C.UTF-8.',
+   tech='black-box differential monitoring of CLI subprocesses against the library over all flag/I-O configurations')
 PENDING = {}
 
 def main():
